@@ -1,6 +1,7 @@
 package types
 
 import (
+	"math"
 	"time"
 
 	sdk "github.com/cosmos/cosmos-sdk/types"
@@ -80,7 +81,13 @@ func CalculateDuration(deposit sdk.Coin, flowRate int64) int64 {
 		decDeposit := sdk.NewDecCoinFromCoin(deposit)
 		decDuration := decDeposit.Amount.QuoTruncateMut(decFlowRate)
 		// note: decimal values are rounded down, e.g. 2628008.9 to just 2628008.
-		return decDuration.TruncateInt64()
+		duration := decDuration.TruncateInt()
+		if !duration.IsInt64() {
+			// more seconds than int64 can hold (TruncateInt64 would panic): saturate.
+			// AddSeconds caps the resulting time anyway.
+			return math.MaxInt64
+		}
+		return duration.Int64()
 	}
 
 	return 0
